@@ -429,7 +429,8 @@ inductive UEv where
 def uprims (sp : Spec) (s : St) : UEv → List Ev
   | .read v => readPrims sp s v
   | .edit v t => [.change v t]
-  | .setNodes v t => [.change v t, .classify]
+  -- the setter validates the table and calls `classify_nodes`, a `@lock_neuron` function
+  | .setNodes v t => [.change v t] ++ lockedCall sp (step sp s (.change v t)) [.classify] false
   | .arith v t excl => [.change v t, .clear excl]
   | .isStale => [.isStale]
   | .copy => [.copy]
@@ -518,12 +519,34 @@ theorem K_read {sp : Spec} (hs : SoundFacts sp) {s : St} (h : K sp s) {v : View}
         simpa using hst'
     exact K_fill (K_isStale h) (by show (isStaleS sp s).md5 = (isStaleS sp s).ver; rw [f3, f1]; exact hmd) hv
 
+/-- a call of the `@lock_neuron` function `classify_nodes` on an unlocked neuron: entry check, lock, classify, unlock -/
+theorem K_lockedClassify {sp : Spec} (hs : SoundFacts sp) {s : St} (h : K sp s) :
+    K sp (run sp s (lockedCall sp s [.classify] false)) := by
+  have k0 : K sp (run sp s (lockEntryPrims sp s)) := by
+    unfold lockEntryPrims
+    split
+    · exact h
+    · split
+      · exact (K_clear hs (K_isStale (sp := sp) h) (knownExcl_nil sp)).1
+      · exact K_isStale h
+  unfold lockedCall
+  simp only [Bool.false_and, Bool.false_eq_true, if_false]
+  rw [List.append_assoc, List.append_assoc, run_append]
+  generalize run sp s (lockEntryPrims sp s) = s0 at k0
+  refine ⟨?_, k0.attrs, k0.tags⟩
+  show s0.lock + 1 - 1 = 0
+  rw [k0.unlocked]
+
 theorem K_ustep {sp : Spec} (hs : SoundFacts sp) {s : St} (h : K sp s) (u : UEv) (hu : UAdm sp u) :
     K sp (ustep sp s u) := by
   cases u with
   | read v => exact K_read hs h hu.1 hu.2
   | edit v t => exact ⟨h.unlocked, h.attrs, h.tags⟩
-  | setNodes v t => exact ⟨h.unlocked, h.attrs, h.tags⟩
+  | setNodes v t =>
+    have k0 : K sp (step sp s (.change v t)) := ⟨h.unlocked, h.attrs, h.tags⟩
+    show K sp (run sp s ([.change v t] ++ lockedCall sp (step sp s (.change v t)) [.classify] false))
+    rw [run_append]
+    exact K_lockedClassify hs k0
   | arith v t excl =>
     have k0 : K sp (step sp s (.change v t)) := ⟨h.unlocked, h.attrs, h.tags⟩
     exact (K_clear hs k0 hu).1
@@ -599,19 +622,173 @@ theorem run_lock_neutral (sp : Spec) : ∀ (es : List Ev) (s : St), (∀ e ∈ e
     rw [run_cons, ih _ (fun e' he' => h e' (by simp [he']))]
     exact step_lock_neutral sp s e (h e (by simp))
 
+theorem lockEntryPrims_neutral (sp : Spec) (s : St) : ∀ e ∈ lockEntryPrims sp s, lockNeutral e = true := by
+  intro e he
+  unfold lockEntryPrims at he
+  split at he
+  · simp at he
+  · split at he <;> simp at he <;> rcases he with rfl | rfl <;> rfl
+
 /-- With the `finally:` in `lock_neuron`, a locked call leaves the lock counter where it was — whether the
-body returns or raises. -/
+body returns or raises (the entry check of the wrapper does not touch the counter). -/
 theorem lockedCall_lock {sp : Spec} (hf : sp.lockFinally = true) (s : St) (body : List Ev)
     (hb : ∀ e ∈ body, lockNeutral e = true) (raises : Bool) :
-    (run sp s (lockedCall sp body raises)).lock = s.lock := by
+    (run sp s (lockedCall sp s body raises)).lock = s.lock := by
   unfold lockedCall
   simp only [hf, Bool.not_true, Bool.and_false, Bool.false_eq_true, if_false]
-  rw [run_append, run_append]
-  show (run sp (run sp (step sp s .lock) body) [Ev.unlock]).lock = s.lock
-  have h1 := run_lock_neutral sp body (step sp s .lock) hb
-  show (run sp (step sp s .lock) body).lock - 1 = s.lock
+  rw [run_append, run_append, run_append]
+  have h0 := run_lock_neutral sp (lockEntryPrims sp s) s (lockEntryPrims_neutral sp s)
+  generalize run sp s (lockEntryPrims sp s) = s0 at h0
+  show (run sp (run sp (step sp s0 .lock) body) [Ev.unlock]).lock = s.lock
+  have h1 := run_lock_neutral sp body (step sp s0 .lock) hb
+  show (run sp (step sp s0 .lock) body).lock - 1 = s.lock
   rw [h1]
-  show s.lock + 1 - 1 = s.lock
+  show s0.lock + 1 - 1 = s.lock
   omega
+
+/-! ### The entry check of `lock_neuron` (fix 4ae1633) and reads under the lock -/
+
+theorem lockEntryPrims_eq_wrapperPrims {sp : Spec} (hw : sp.wrapperChecks = true) (hf : sp.lockChecksStale = true)
+    (s : St) : lockEntryPrims sp s = wrapperPrims sp s := by
+  unfold lockEntryPrims wrapperPrims; simp [hw, hf]
+
+/-- the entry check consists of admissible events only, so it preserves the invariant -/
+theorem J_lockEntry {sp : Spec} (hs : SoundFacts sp) {s : St} (h : J sp s) : J sp (run sp s (lockEntryPrims sp s)) := by
+  unfold lockEntryPrims
+  split
+  · exact h
+  · split
+    · exact J_clear hs (J_isStale h) (knownExcl_nil sp)
+    · exact J_isStale h
+
+/-- **What the fixed `lock_neuron` establishes**: when a `@lock_neuron` function is entered on an unlocked
+neuron, at the moment the lock is taken the content is unchanged and every cache entry was computed from it. -/
+theorem lockEntry_establishes {sp : Spec} (hs : SoundFacts sp) (hf : sp.lockChecksStale = true) {s : St}
+    (h : J sp s) (hl : s.lock = 0) :
+    let s1 := run sp s (lockEntryPrims sp s ++ [Ev.lock])
+    s1.ver = s.ver ∧ s1.lock = 1 ∧ (∀ p ∈ s1.cache, p.2 = s.ver) ∧ J sp s1 := by
+  intro s1
+  have e : s1 = step sp (run sp s (wrapperPrims sp s)) .lock := by
+    show run sp s (lockEntryPrims sp s ++ [Ev.lock]) = _
+    rw [run_append, lockEntryPrims_eq_wrapperPrims hs.wrapper hf]; rfl
+  obtain ⟨e1, _, _, e4, e5, hJ⟩ := wrapper_establishes hs h hl
+  rw [e]
+  refine ⟨e1, by show (run sp s (wrapperPrims sp s)).lock + 1 = 1; rw [e4], ?_, ⟨hJ.md5_lt, hJ.ver_lt, hJ.attrs, hJ.fresh⟩⟩
+  intro p hp
+  rw [← e1]; exact e5 p hp
+
+/-- all entries current and the lock held: the situation inside a locked function before its first change -/
+structure AllCur (s : St) (v0 : Nat) : Prop where
+  ver : s.ver = v0
+  locked : 0 < s.lock
+  cur : ∀ p ∈ s.cache, p.2 = v0
+
+theorem fill_lock (sp : Spec) (s : St) (v : View) : (run sp s (fillPrims s v)).lock = s.lock := by
+  apply run_lock_neutral
+  intro e he
+  unfold fillPrims at he
+  split at he
+  · simp at he
+  · split at he <;> simp at he
+    · rcases he with rfl | rfl <;> rfl
+    · subst he; rfl
+
+/-- a read of any cached view (wrapped or not) while the lock is held and all entries are current returns a
+value computed from the current content and keeps that situation -/
+theorem locked_read {sp : Spec} {s : St} {v0 : Nat} (h : AllCur s v0) (v : View) :
+    readTag sp s v = some v0 ∧ AllCur (readS sp s v) v0 := by
+  have hp : viewPrefix sp s v = [] := by
+    unfold viewPrefix wrapperPrims
+    have := h.locked
+    split <;> simp [this]
+  unfold readTag
+  rw [readS_eq, hp]
+  simp only [run, List.foldl_nil]
+  obtain ⟨t1, t2, t3⟩ := fill_current sp s v (by rw [h.ver]; exact h.cur)
+  have hl := fill_lock sp s v
+  simp only [run] at t1 t2 t3 hl
+  exact ⟨by rw [t1, h.ver], ⟨by rw [t2, h.ver], by rw [hl]; exact h.locked, by rw [← h.ver]; exact t3⟩⟩
+
+def readsS (sp : Spec) (s : St) (vs : List View) : St := vs.foldl (readS sp) s
+
+theorem locked_reads {sp : Spec} : ∀ (vs : List View) {s : St} {v0 : Nat}, AllCur s v0 →
+    AllCur (readsS sp s vs) v0 := by
+  intro vs
+  induction vs with
+  | nil => intro s v0 h; exact h
+  | cons v vs ih => intro s v0 h; exact ih (locked_read (sp := sp) h v).2
+
+/-- **Reads inside a locked operation entered on an unlocked neuron** (after any number of earlier reads under
+the same lock) return a value computed from the content at entry. -/
+theorem locked_read_entry {sp : Spec} (hs : SoundFacts sp) (hf : sp.lockChecksStale = true) {s : St}
+    (h : J sp s) (hl : s.lock = 0) (vs : List View) (v : View) :
+    readTag sp (readsS sp (run sp s (lockEntryPrims sp s ++ [Ev.lock])) vs) v = some s.ver := by
+  obtain ⟨a, b, c, _⟩ := lockEntry_establishes hs hf h hl
+  have h0 : AllCur (run sp s (lockEntryPrims sp s ++ [Ev.lock])) s.ver := ⟨a, by rw [b]; decide, c⟩
+  exact (locked_read (locked_reads vs h0) v).1
+
+/-- Without the entry check the lock is taken over whatever is cached: a read under the lock returns the
+entry as it is — also when it was computed from other content. -/
+theorem unchecked_lock_reads_cache {sp : Spec} (hf : sp.lockChecksStale = false) (s : St) (v : View) (old : Nat)
+    (ht : tagOf s v.attr = some old) :
+    readTag sp (run sp s (lockEntryPrims sp s ++ [Ev.lock])) v = some old := by
+  have e : run sp s (lockEntryPrims sp s ++ [Ev.lock]) = { s with lock := s.lock + 1 } := by
+    unfold lockEntryPrims; simp [hf, run, step]
+  rw [e]
+  have hh : has { s with lock := s.lock + 1 } v.attr = true := by
+    unfold tagOf at ht
+    unfold has
+    cases hfnd : s.cache.find? (fun p => p.1 == v.attr) with
+    | none => rw [hfnd] at ht; simp at ht
+    | some q =>
+      rw [List.any_eq_true]
+      exact ⟨q, List.mem_of_find?_eq_some hfnd, List.find?_some (p := fun (p : Attr × Nat) => p.1 == v.attr) hfnd⟩
+  have hp : viewPrefix sp { s with lock := s.lock + 1 } v = [] := by
+    unfold viewPrefix wrapperPrims
+    split <;> simp
+  unfold readTag
+  rw [readS_eq, hp]
+  simp only [run, List.foldl_nil]
+  unfold fillPrims
+  rw [if_pos hh]
+  simpa [tagOf] using ht
+
+/-! ### What reaches the hash function -/
+
+/-- The value an integer cell `n` has after conversion to a binary floating type with `p` significand bits
+(round to nearest, ties to even): integers up to `2^p` in absolute value are exact, larger ones lose their low
+bits.  A cell is a node id or the 53-bit significand of a float64 coordinate. -/
+def roundBits (p : Nat) (n : Int) : Int :=
+  let m := n.natAbs
+  if m ≤ 2 ^ p then n
+  else
+    let e := Nat.log2 m + 1 - p
+    let q := m / 2 ^ e
+    let r := m % 2 ^ e
+    let half := 2 ^ (e - 1)
+    let q' := if r > half || (r == half && q % 2 == 1) then q + 1 else q
+    (if n < 0 then -1 else 1) * ((q' * 2 ^ e : Nat) : Int)
+
+def hashInput (sp : Spec) (row : List Int) : List Int := row.map (roundBits sp.hashBits)
+
+theorem roundBits_exact {p : Nat} {n : Int} (h : n.natAbs ≤ 2 ^ p) : roundBits p n = n := by
+  unfold roundBits; simp [h]
+
+/-- rows whose cells are exactly representable are determined by what reaches the hash function -/
+theorem hashInput_injective {sp : Spec} : ∀ (a b : List Int), (∀ n ∈ a, n.natAbs ≤ 2 ^ sp.hashBits) →
+    (∀ n ∈ b, n.natAbs ≤ 2 ^ sp.hashBits) → hashInput sp a = hashInput sp b → a = b := by
+  intro a
+  induction a with
+  | nil => intro b _ _ h; cases b with
+    | nil => rfl
+    | cons y ys => simp [hashInput] at h
+  | cons x xs ih =>
+    intro b ha hb h
+    cases b with
+    | nil => simp [hashInput] at h
+    | cons y ys =>
+      simp only [hashInput, List.map_cons, List.cons.injEq] at h
+      rw [roundBits_exact (ha x (by simp)), roundBits_exact (hb y (by simp))] at h
+      rw [h.1, ih ys (fun n hn => ha n (by simp [hn])) (fun n hn => hb n (by simp [hn])) h.2]
 
 end Navis.Cache
